@@ -5,6 +5,8 @@ package serviceinfo
 
 //@ func serviceinfo.ChunkReader.ReadChunk
 //@   params r size
+//@   local ErrSizeTooSmall = UnOp#10 | UnOp#12
+//@   local err = Phi#1 | UnOp#10 | call:cbor.Decoder.Decode#1 | call:cbor.Unmarshal#1 | extract1:call:io.ReadFull#1
 //@   props C15
 //@   sweep bounds,make,nilmem,panic,nooverflow
 //@   makelimit 65535
@@ -39,6 +41,7 @@ package serviceinfo
 // starts at the number of names written before it; together they cover the list.
 //@ func serviceinfo.Devmod.writeModuleMessages
 //@   params d modules mtu w
+//@   local chunk = MakeInterface#5 | UnOp#14 | UnOp#17 | UnOp#7 | UnOp#8 | addr:Alloc#2
 //@   props C16 C10(sweep)
 //@   sweep bounds,panic,make,nilmem,div
 //@   invariant loop#1: chunk.Len == len(chunk.Modules) && chunk.Start + chunk.Len + len(modules) == len(arg1) && chunk.Start >= 0 && chunk.Len >= 0 && len(modules) >= 0
